@@ -51,4 +51,11 @@ PROPS = {
         assumptions=['validators are deterministic per message', 'validator timeouts are user-code behaviour (the validator decides what to return when its context ends) and are not modelled',
                      'throttled results of the asynchronous stage reach the result channel before the parked validators complete (true whenever a validator takes any time at all; forced in the harness)'],
     ),
+    'C03': dict(
+        coq=['Props/C03', 'Run/C03Run'],
+        go=[dict(run='^TestVF_C03$')],
+        trusted_base=['hand-written model Model/SignPolicy.v; the crypto oracle (libp2p crypto: IDFromBytes, ExtractPublicKey, UnmarshalPublicKey, MatchesPublicKey, Verify; gogo-protobuf Marshal) whose answers are inputs of the model'],
+        assumptions=['unforgeability of the signature schemes is NOT proved: theorems state that an accepted signed message verifies under the key bound to its author',
+                     'own_messages_verify assumes correctness of the signature scheme and the (un)marshalling round trips (hypotheses of the theorem)'],
+    ),
 }
